@@ -4,7 +4,7 @@
    inputs); NOT a proof and never counted as an obligation.  The value set of a term under a
    finite assignment is finite (intervals between numerals are finite), so [ref_vals] is exact;
    [ref_rule_eval] enumerates the assignments of the rule's variables over a given finite list of
-   values.  Proofs/NaturalOk.v proves [ref_vals] correct against [vals] ([ref_vals_ok]). *)
+   values.  Proofs/EvalAspNatOk.v proves [ref_vals] exact against [vals] ([ref_vals_ok]). *)
 From Coq Require Import List Ascii String ZArith Bool.
 From Anthem Require Import Base.ISet Syntax.Fol Syntax.Asp Sem.Domain Sem.AspRef Model.Eval.
 Import ListNotations.
